@@ -256,14 +256,58 @@ fn run_graph(ctx: &mut Ctx, wl: &str, case: u64, n: usize, edges: &[(usize, usiz
     let full = edges.len() == n * (n - 1) / 2;
     for merge in ["none", "parent_child", "clique_graph"] {
         let (a, b) = problem_for(n, edges, rng);
-        let cones = vec![SupportedConeT::PSDTriangleConeT(n)];
+        // half of the time the PSD cone is not the first cone of the problem: rows of other cones (dense, so that
+        // they say nothing about the pattern) come first, and the tree must still be found and carry the right
+        // cone index
+        let lead: Vec<SupportedConeT<f64>> = if rng.bool(0.5) {
+            (0..rng.usize(1, 3)).map(|_| match rng.usize(0, 3) {
+                0 => SupportedConeT::NonnegativeConeT(rng.usize(1, 3)),
+                1 => SupportedConeT::SecondOrderConeT(rng.usize(2, 4)),
+                2 => SupportedConeT::ZeroConeT(rng.usize(1, 2)),
+                _ => SupportedConeT::ExponentialConeT(),
+            }).collect()
+        } else {
+            vec![]
+        };
+        let lead_rows: usize = lead.iter().map(|c| match c {
+            SupportedConeT::NonnegativeConeT(d) | SupportedConeT::SecondOrderConeT(d) | SupportedConeT::ZeroConeT(d) => *d,
+            _ => 3,
+        }).sum();
+        let psd_index = lead.len();
+        let (a, b) = if lead_rows > 0 {
+            let (mut ii, mut jj, mut vv) = (vec![], vec![], vec![]);
+            for i in 0..lead_rows {
+                for j in 0..a.n {
+                    ii.push(i);
+                    jj.push(j);
+                    vv.push(rng.range(0.5, 1.5));
+                }
+            }
+            for j in 0..a.n {
+                for k in a.colptr[j]..a.colptr[j + 1] {
+                    ii.push(a.rowval[k] + lead_rows);
+                    jj.push(j);
+                    vv.push(a.nzval[k]);
+                }
+            }
+            let mut b2: Vec<f64> = (0..lead_rows).map(|_| rng.range(0.5, 1.5)).collect();
+            b2.extend_from_slice(&b);
+            (CscMatrix::new_from_triplets(a.m + lead_rows, a.n, ii, jj, vv), b2)
+        } else {
+            (a, b)
+        };
+        let mut cones = lead;
+        cones.push(SupportedConeT::PSDTriangleConeT(n));
+        if psd_index > 0 {
+            ctx.bump("patterns_with_other_cones_in_front");
+        }
         let st = settings(merge);
         let r = vkit::report::catch(std::panic::AssertUnwindSafe(|| {
             let vc = VerifChordal::new(&a, &b, &cones, &st);
             vc.trees()
         }));
         ctx.eval(1);
-        let inp = || json!({"n": n, "edges": edges, "merge": merge, "family": family});
+        let inp = || json!({"n": n, "edges": edges, "merge": merge, "family": family, "cones_in_front": psd_index});
         match r {
             Err(msg) => {
                 let site = msg.rsplit(" @ ").next().unwrap_or("").replace("/repo/", "");
@@ -288,7 +332,7 @@ fn run_graph(ctx: &mut Ctx, wl: &str, case: u64, n: usize, edges: &[(usize, usiz
                     ctx.violation("dense_pattern_decomposed", "dense_pattern_decomposed", wl, case, json!({"input": inp()}));
                     continue;
                 }
-                if trees.len() != 1 || trees[0].orig_index != 0 {
+                if trees.len() != 1 || trees[0].orig_index != psd_index {
                     ctx.violation("tree_count", "tree_count", wl, case, json!({"input": inp(), "trees": trees.len()}));
                     continue;
                 }
